@@ -10,10 +10,10 @@ PKGS=$(grep '^+++ b/' $OUT/patch$K.diff | sed 's/+++ b\///' | xargs -n1 dirname 
 echo "[$ID/$K] demo dir=$DIR touched=$PKGS"
 git apply --check $OUT/patch$K.diff || { echo "[$ID/$K] RESULT apply=FAIL"; exit 1; }
 cp $OUT/demo${K}_test.go $DIR/zz_demo_test.go
-go1.26.8 test -tags purego -count=1 -run 'Demo|demo|C0' ./$DIR > /tmp/wt/confirm_${ID}_${K}_pristine.log 2>&1; P0=$?
+go1.26.8 test -tags purego -count=1 -run 'Demo|demo|C0|C1|C2' ./$DIR > /tmp/wt/confirm_${ID}_${K}_pristine.log 2>&1; P0=$?
 git apply $OUT/patch$K.diff
 go1.26.8 build -tags purego ./... > /tmp/wt/confirm_${ID}_${K}_build.log 2>&1; B=$?
-go1.26.8 test -tags purego -count=1 -run 'Demo|demo|C0' ./$DIR > /tmp/wt/confirm_${ID}_${K}_patched.log 2>&1; P1=$?
+go1.26.8 test -tags purego -count=1 -run 'Demo|demo|C0|C1|C2' ./$DIR > /tmp/wt/confirm_${ID}_${K}_patched.log 2>&1; P1=$?
 rm -f $DIR/zz_demo_test.go
 go1.26.8 test -tags purego -count=1 $PKGS > /tmp/wt/confirm_${ID}_${K}_existing.log 2>&1; T=$?
 git checkout -q -- . && git clean -fdq
